@@ -66,6 +66,16 @@ def _merge(a, b):
     return a
 
 
+def _safe_tb():
+    try:
+        return traceback.format_exc()
+    except BaseException:
+        try:
+            return "".join(traceback.format_tb(sys.exc_info()[2]))
+        except BaseException:
+            return "<traceback not printable>"
+
+
 def _work(args):
     name, prefixes, deadline, max_paths = args
     obl = _OBLS[name]
@@ -78,10 +88,13 @@ def _work(args):
         out["error"] = None
     except core.Inconclusive as ex:
         out["error"] = "inconclusive: %s" % (ex,)
-        out["tb"] = traceback.format_exc()
+        out["tb"] = _safe_tb()
     except BaseException as ex:  # harness bug: never a pass
-        out["error"] = "harness exception: %r" % (ex,)
-        out["tb"] = traceback.format_exc()
+        try:
+            out["error"] = "harness exception: %r" % (ex,)
+        except BaseException:    # the exception carries a proxy object whose repr() refuses
+            out["error"] = "harness exception: %s (arguments not printable)" % type(ex).__name__
+        out["tb"] = _safe_tb()
     out["stats"] = en.stats()
     out["violations"] = en.violations
     out["samples"] = en.samples
@@ -113,11 +126,22 @@ def run_obligation(obl, pool):
             inflight.append(pool.apply_async(_work, ((obl.name, prefixes, deadline, mp),)))
         ready = [r for r in inflight if r.ready()]
         if not ready:
+            if time.time() > deadline + 120:
+                # every task stops at the deadline on its own; one that has not come back by now was lost (its worker process died)
+                res["errors"].append("harness error: %d task(s) never returned (worker process lost)" % len(inflight))
+                inflight = []
+                stop = True
+                break
             time.sleep(0.002)
             continue
         for r in ready:
             inflight.remove(r)
-            out = r.get()
+            try:
+                out = r.get()
+            except BaseException as ex:      # the result could not be sent back
+                res["errors"].append("harness error: task result not transferable: %s" % type(ex).__name__)
+                stop = True
+                continue
             _merge(stats, out["stats"])
             violations.extend(out["violations"])
             for kh in out.get("known_hits", []):
